@@ -18,6 +18,7 @@ type castSite struct {
 	Fn  string `json:"fn"`
 	Src string `json:"src"`
 	Ptr bool   `json:"ptr"`
+	Typ string `json:"typ,omitempty"` // the value's type property ("" = a marker string)
 }
 
 var c08Fns = map[string]func(ap.Item) (interface{}, error){
@@ -101,6 +102,9 @@ func c08Site(s castSite) (outcome string, viol string) {
 	st := goTypes[s.Src]
 	pv := reflect.New(st)
 	fillMarkers(pv.Elem(), "a-")
+	if s.Typ != "" {
+		pv.Elem().FieldByName("Type").SetString(s.Typ)
+	}
 	var it ap.Item
 	if s.Ptr {
 		it = pv.Interface().(ap.Item)
@@ -145,7 +149,7 @@ func c08Site(s castSite) (outcome string, viol string) {
 			if _, shared := dt.FieldByName(rhoName(dt, st, name)); shared {
 				continue
 			}
-			if want := markerFor(st.Field(i).Type, "a-"+name); !reflect.DeepEqual(pv.Elem().Field(i).Interface(), want.Interface()) {
+			if want := markerFor(st.Field(i).Type, "a-"+name); name != "Type" && !reflect.DeepEqual(pv.Elem().Field(i).Interface(), want.Interface()) {
 				return "ok", fmt.Sprintf("%s(*%s): writing through the view changed %s, which the view does not have", s.Fn, s.Src, name)
 			}
 		}
@@ -158,7 +162,7 @@ func c08Site(s castSite) (outcome string, viol string) {
 
 func init() {
 	campaigns["C08"] = func(c *Ctx) {
-		c.Rule = "exhaustive: (a) the reflect layout (field, offset, size; total size) of each of the 14 structs against the go/types layout in the regenerated tables; (b) every To* helper x every struct x {value, pointer}: accepted or refused as the regenerated type-switch lists predict, and for accepted conversions every field of the view read against the like-named field (items<->orderedItems) of a source filled with distinct markers, every field written through pointer views and checked on the original, untouched fields re-checked, and the view's size against the source's. Thorough: every accepted site re-run in a child process of a binary built with -gcflags=all=-d=checkptr. Non-trivial = the source struct differs from the view struct."
+		c.Rule = "exhaustive: (a) the reflect layout (field, offset, size; total size) of each of the 14 structs against the go/types layout in the regenerated tables; (b) every To* helper x every struct x {value, pointer} x {type property a marker, type property naming the target}: accepted or refused as the regenerated type-switch lists predict, and for accepted conversions every field of the view read against the like-named field (items<->orderedItems) of a source filled with distinct markers, every field written through pointer views and checked on the original, untouched fields re-checked, and the view's size against the source's. Thorough: every accepted site re-run in a child process of a binary built with -gcflags=all=-d=checkptr. Non-trivial = the source struct differs from the view struct."
 		for _, t := range allGoTypes {
 			rt := goTypes[t]
 			var fs []interface{}
@@ -171,13 +175,17 @@ func init() {
 		checkptr := os.Getenv("VERIF_CHECKPTR_BIN")
 		for _, fn := range c08FnOrder {
 			for _, src := range allGoTypes {
-				for _, ptr := range []bool{false, true} {
-					s := castSite{fn, src, ptr}
+				for _, variant := range []int{0, 1, 2, 3} {
+					ptr := variant%2 == 1
+					s := castSite{Fn: fn, Src: src, Ptr: ptr}
+					if variant >= 2 {
+						s.Typ = strings.TrimPrefix(fn, "To") // a value of another struct that carries the target's type name
+					}
 					var out, viol string
 					if p, msg := guard(func() { out, viol = c08Site(s) }); p {
 						out, viol = "panic", "panic: "+msg
 					}
-					in := map[string]interface{}{"op": "cast", "fn": fn, "src": src, "ptr": ptr}
+					in := map[string]interface{}{"op": "cast", "fn": fn, "src": src, "ptr": ptr, "typ": s.Typ}
 					c.Emit(in, out, "To"+src != fn)
 					c.Tag("cast/" + out)
 					if viol != "" {
